@@ -13,6 +13,7 @@ import Alpaqa.Proofs.OcpLs
 import Alpaqa.Proofs.Basic
 import Alpaqa.Proofs.OcpDescent
 import Alpaqa.Proofs.OcpExample
+import Alpaqa.Proofs.OcpSized
 
 namespace Alpaqa.Props.C05_Ocp
 open Alpaqa Alpaqa.Ocp Alpaqa.Gen
@@ -218,6 +219,20 @@ theorem ocp_descent_chain {D : Type} (O : Oracles α) (dir : Dir D α) (P : Prob
     u0 y mu errz0 gV gQ gS e0
   exact ⟨h.1.imp (fun _ _ hc => hc.2 trivial), fun cb hcb => ⟨(h.2 cb hcb).fbe, (h.2 cb hcb).tau⟩⟩
 
+/-- **Sizes of the reported iterates** (the premise under which `‖p‖²`, `∇ψᵀp` in `DescTo` are sums over all
+    `N·nu` components, no `zipWith` of the list model truncating): under the size contract of the oracles
+    (`SizeContract`, what the C++ asserts) and an initial guess of `N·nu` entries, every iterate handed to the
+    progress callback is consistent (`Good`: roll-out, gradient, projected-gradient step) and has `u`, `∇ψ`,
+    `p`, `û` of exactly `N·nu` entries.  (The descent chain itself, `ocp_descent_chain`, is proved without this
+    premise: `evalProxImpl_model_le` holds for the truncating model as well.) -/
+theorem ocp_callbacks_sized {D : Type} (O : Oracles α) (dir : Dir D α) (P : Prob α) (d0 : D)
+    (pr : Params α) (hc : SizeContract O dir P) (nL nτ : Nat) (hp : FuelOK pr nL nτ)
+    (stop : Nat → Bool) (oot : Bool) (u0 y mu errz0 gV gQ : Vec α) (gS e0 : α)
+    (hu0 : u0.length = P.N * P.nu) :
+    ∀ cb ∈ (run O dir P d0 pr stop oot u0 y mu errz0 gV gQ gS e0).callbacks,
+      Good O P cb.it ∧ ItSized P cb.it :=
+  run_callbacks_sized O dir P d0 pr hc nL nτ hp stop oot u0 y mu errz0 gV gQ gS e0 hu0
+
 end field
 
 /-! ### Non-vacuity -/
@@ -275,6 +290,13 @@ example : (rL none).callbacks.map (fun c => (c.k, c.tau)) = [(0, 1), (1, 1), (2,
 example : InitInterrupted OA PA () prS (stopAt (some 21)) [1, 1/2] [] [] 0 0 ∧
     (rS (some 21)).callbacks.map (fun c => (c.k, qubViolated prS c.it)) = [(0, true)] :=
   ⟨(initInterrupted_iff _ _ _ _ _ _ _ _ _ _).mpr (by decide +kernel), by decide +kernel⟩
+
+/-- `ocp_callbacks_sized` instantiated on `rS` -/
+example : ∀ cb ∈ (rS none).callbacks, Good OA PA cb.it ∧ ItSized PA cb.it :=
+  ocp_callbacks_sized OA (dirOf 1 3) PA () prS
+    ⟨rfl, rfl, fun _ _ _ => rfl, fun _ _ _ _ _ => rfl,
+      fun _ q _ _ hq => by show (smul _ q).length = _; rw [smul_length]; exact hq⟩
+    23 9 fuelOK_prS (stopAt none) false [1, 1/2] [] [] [] [] [] 0 0 rfl
 
 end run_examples
 
